@@ -653,6 +653,17 @@ impl Session<'_> {
             });
             new_cell_with(new_state)
         };
+        // The store is now aligned with the in-memory state: the record, if there is one,
+        // is stored against the new id. The session id must reflect that, otherwise a later
+        // operation (e.g. another `sync`, invoked by `finalize`) would try to create, rename
+        // or load the record again, starting from an id that's no longer in the store.
+        let has_record = matches!(self.server_state.get(), None | Some(Unchanged { .. }));
+        self.id = match self.id {
+            CurrentSessionId::NewlyGenerated(id) if !has_record => {
+                CurrentSessionId::NewlyGenerated(id)
+            }
+            ref id => CurrentSessionId::Existing(id.new_id()),
+        };
         Ok(())
     }
 
